@@ -91,54 +91,78 @@ Proof. intros. split; [apply framing_cl_capped|apply chunk_size_line_bounds]. Qe
 Print Assumptions http_client_lengths_capped.
 
 (* ---------------------------------------------------------------- server *)
+(* (since the repair of C15-F5b/F5d/F5e/F5g/F5h/F5i the statements that were refuted on the code as found hold) *)
 
-(* 8. The server's chunked-body scan terminates on every input (after fix 531f6fb; the
-      18-byte line FFFFFFFFFFFFFFEC CRLF used to spin forever). *)
-Theorem http_server_chunk_scan_terminates : forall l c,
-  chunked_end (S (length l)) l c <> None.
-Proof. intros. apply chunked_end_total. lia. Qed.
+(* 8. The server's chunked-body scan terminates on every input and always answers need-more / invalid / end. *)
+Theorem http_server_chunk_scan_terminates : forall body start,
+  match chunked_end body start with ENeed | EBad | EEnd _ _ => True end /\
+  advance (S (length body)) MAX_BODY_SIZE body [] <> CFuel.
+Proof. exact server_chunk_scan_total. Qed.
 Print Assumptions http_server_chunk_scan_terminates.
 
-(* 9. "invalid length information is rejected rather than framed by guesswork" and
-      "the bytes handed to the application are exactly those encoded" are FALSE of the
-      server model (known findings C15-F5b/F5d/F5e/F5g): witnesses. *)
+(* 9. Invalid length information is rejected, never framed by guesswork: whenever the header scan accepts a header
+      block, EVERY Content-Length field-line is a valid number (or list of identical numbers) equal to the length
+      used; the body is chunked exactly when a Transfer-Encoding field is present, and then there is no
+      Content-Length at all and chunked is the final coding of the last Transfer-Encoding field-line. *)
+Theorem http_server_framing_sound : forall lines n c,
+  scan_headers lines None false false false = HFraming n c ->
+  Forall (fun v => parse_content_length v = Some n) (cl_fields lines) /\
+  (cl_fields lines = [] -> n = 0) /\
+  (c = true <-> te_fields lines <> []) /\
+  (c = true -> cl_fields lines = [] /\ te_final_is_chunked (last (te_fields lines) []) = true).
+Proof. exact server_framing_sound. Qed.
+Print Assumptions http_server_framing_sound.
+
+(* 10. A valid chunked request body (any chunk sizes with leading zeros and either case, chunk extensions, BWS before
+       ';', any trailer section) is framed exactly - one past its final CRLF, whatever follows - and decoded to the
+       concatenation of the chunk data. *)
+Theorem http_server_chunked_exact : forall pieces lhex lext trs surplus start,
+  Forall (piece_ok MAX_BODY_SIZE) pieces ->
+  full_uint 16 lhex = Some 0 -> ext_ok lext -> ~ In 10 lext -> Forall trailer_ok trs ->
+  let body := enc_body pieces lhex lext trs [] in
+  chunked_end (body ++ surplus) start = EEnd (start + lenN body) (concat (map p_data pieces)).
+Proof. exact server_chunked_exact. Qed.
+Print Assumptions http_server_chunked_exact.
+
+(* 11. The witnesses of the repaired findings: each of these requests was framed by guesswork by the code as found;
+       now each is answered with a close and nothing is handed on.  The chunked request with a trailer section is
+       framed in full and the pipelined request behind it starts at its first byte. *)
 Definition s2b (s : string) : list N := map N_of_ascii (list_ascii_of_string s).
 Definition crlf : list N := [13; 10].
-Definition req_lenient_cl : list N :=
-  s2b "POST / HTTP/1.1" ++ crlf ++ s2b "Host: a" ++ crlf ++ s2b "Content-Length: 5abc" ++ crlf ++ crlf
-      ++ s2b "helloXYZ".
-Definition req_te_substring : list N :=
-  s2b "POST / HTTP/1.1" ++ crlf ++ s2b "Host: a" ++ crlf ++ s2b "Transfer-Encoding: xchunkedy" ++ crlf ++ crlf
-      ++ s2b "0" ++ crlf ++ crlf.
-Definition req_cl_and_te : list N :=
-  s2b "POST / HTTP/1.1" ++ crlf ++ s2b "Host: a" ++ crlf ++ s2b "Content-Length: 3" ++ crlf
-      ++ s2b "Transfer-Encoding: chunked" ++ crlf ++ crlf ++ s2b "0" ++ crlf ++ crlf.
-Definition req_trailers : list N :=
-  s2b "POST / HTTP/1.1" ++ crlf ++ s2b "Host: a" ++ crlf ++ s2b "Transfer-Encoding: chunked" ++ crlf ++ crlf
-      ++ s2b "1" ++ crlf ++ s2b "x" ++ crlf ++ s2b "0" ++ crlf ++ s2b "T: v" ++ crlf ++ crlf.
-
-Definition is_request (a : sact) : bool := match a with SRequest _ => true | SClose => false end.
-
-Theorem http_server_invalid_length_framed_refuted :
-  (* "5abc" is framed as 5; "xchunkedy" is treated as chunked; CL + TE is accepted *)
-  (exists raw, snd (run_server (mkS [] false) [req_lenient_cl]) = [SRequest raw]
-               /\ s_buf (fst (run_server (mkS [] false) [req_lenient_cl])) = s2b "XYZ") /\
-  forallb is_request (snd (run_server (mkS [] false) [req_te_substring])) = true /\
-  forallb is_request (snd (run_server (mkS [] false) [req_cl_and_te])) = true /\
-  snd (run_server (mkS [] false) [req_te_substring]) <> [] /\
-  snd (run_server (mkS [] false) [req_cl_and_te]) <> [].
-Proof.
-  split; [eexists; split; vm_compute; reflexivity|].
-  repeat split; vm_compute; congruence.
-Qed.
-Print Assumptions http_server_invalid_length_framed_refuted.
-
-Theorem http_server_trailers_misframed_refuted :
-  (* a chunked request with a trailer section is cut before its final CRLF: the two
-     bytes CR LF stay in the buffer and are prepended to the next request *)
-  s_buf (fst (run_server (mkS [] false) [req_trailers])) = crlf.
+Definition req_with (hdrs : list (list N)) (body : list N) : list N :=
+  s2b "POST / HTTP/1.1" ++ crlf ++ s2b "Host: a" ++ crlf ++
+  concat (map (fun h => h ++ crlf) hdrs) ++ crlf ++ body.
+Definition rejected (req : list N) : bool :=
+  match run_server (mkS [] false) [req] with
+  | (s, [SClose]) => s_closed s
+  | _ => false
+  end.
+Definition chunked5 (szline : string) : list N :=
+  s2b szline ++ crlf ++ s2b "hello" ++ crlf ++ s2b "0" ++ crlf ++ crlf.
+Theorem http_server_invalid_length_rejected :
+  forallb rejected
+    [ req_with [s2b "Content-Length: 5abc"] (s2b "helloXYZ");
+      req_with [s2b "Content-Length: +5"] (s2b "hello");
+      req_with [s2b "Content-Length: 5"; s2b "Content-Length: 6"] (s2b "hello!");
+      req_with [s2b "Content-Length: 5, 6"] (s2b "hello!");
+      req_with [s2b "Transfer-Encoding: xchunkedy"] (s2b "0" ++ crlf ++ crlf);
+      req_with [s2b "Transfer-Encoding: chunked, gzip"] (s2b "0" ++ crlf ++ crlf);
+      req_with [s2b "Content-Length: 3"; s2b "Transfer-Encoding: chunked"] (s2b "0" ++ crlf ++ crlf);
+      req_with [s2b "Transfer-Encoding: chunked"] (chunked5 "0x5");
+      req_with [s2b "Transfer-Encoding: chunked"] (chunked5 "+5");
+      req_with [s2b "Transfer-Encoding: chunked"] (chunked5 "5 ");
+      req_with [s2b "Transfer-Encoding: chunked"] (s2b "5" ++ crlf ++ s2b "helloXX" ++ s2b "0" ++ crlf ++ crlf) ] = true.
 Proof. vm_compute. reflexivity. Qed.
-Print Assumptions http_server_trailers_misframed_refuted.
+Print Assumptions http_server_invalid_length_rejected.
+
+Definition req_trailers : list N :=
+  req_with [s2b "Transfer-Encoding: chunked"] (s2b "1" ++ crlf ++ s2b "x" ++ crlf ++ s2b "0" ++ crlf ++ s2b "T: v" ++ crlf ++ crlf).
+Definition req_next : list N := s2b "GET / HTTP/1.1" ++ crlf ++ s2b "Host: a" ++ crlf ++ crlf.
+Theorem http_server_trailers_framed :
+  run_server (mkS [] false) [req_trailers ++ req_next] =
+  (mkS [] false, [SRequest req_trailers (s2b "x"); SRequest req_next []]).
+Proof. vm_compute. reflexivity. Qed.
+Print Assumptions http_server_trailers_framed.
 
 (* ------------------------------------------------ non-vacuity examples *)
 Lemma not_in_10 (l : list N) : forallb (fun b => negb (b =? 10)) l = true -> ~ In 10 l.
